@@ -20,7 +20,7 @@ HEADLINE = ['scenarios', 'selflocking_instants', 'nonlocking_instants', 'engagem
 
 def floors(tier):
     return {'selflocking_scenarios': 200, 'engagements': 200, 'held_instants': 2000, 'releases': 50, 'nonlocking_instants': 1000,
-            'duty_sign_changes': 100, 'flag_compared': 1000, 'set:nontrivial': 20}
+            'duty_sign_changes': 100, 'manual_duty_cycle_scenarios': 40, 'flag_compared': 1000, 'set:nontrivial': 20}
 
 
 def n_cases(tier):
@@ -40,9 +40,17 @@ def scenario(rng, i):
                 a, b = GEN.qsi(prev['pa']), GEN.qsi(prev['helix'])
                 crit = math.cos(a) * math.tan(b)
                 e['rel']['f'] = min(1.0, rng.choice([crit, math.nextafter(crit, 2), math.nextafter(crit, 0), crit * (1 - 1e-3), crit * (1 + 1e-3), crit * 0.98, crit * 1.02]))
-    if m != 7 or rng.random() < 0.5:
+    if m == 3:
+        # no controller at all: the duty cycle is assigned by hand between consecutive runs (1 -> 0 -> -1 -> ...)
+        dt = spec['schedule'][0]['dt']
+        sched = [spec['schedule'][0]]
+        for v in rng.sample([0, -1, 1, 0.5, -0.4, 0], 3):
+            sched += [{'op': 'setpwm', 'value': v}, {'op': 'run', 'dt': dt, 'T': GEN.mulq(dt, rng.randint(4, 20))}]
+        spec['schedule'] = sched
+        spec['manual_pwm'] = True
+    elif m != 7 or rng.random() < 0.5:
         GEN.add_const_rules(rng, spec, n_rules=rng.randint(1, 5))
-    if m in (2, 7) and rng.random() < 0.5:
+    if m in (2, 7) and rng.random() < 0.5 and not spec.get('manual_pwm'):
         from . import c15 as C15          # position-keyed rule: the duty cycle changes with the state, also across zero
         spec['rules'].append(C15.make_rule(rng, spec, 'reach', sim=True))
     spec['probe'] = True
@@ -66,6 +74,8 @@ def nontrivial(spec, ana):
 def mon(ctx, ana, case):
     if ana.nums['self_locking']:
         ctx.count('selflocking_scenarios')
+        if ana.spec.get('manual_pwm'):
+            ctx.count('manual_duty_cycle_scenarios')
     b = getattr(ctx, 'current_built', None)
     flags = None
     if b is not None and b.probe_log:
